@@ -21,7 +21,7 @@ LEVEL = "model_checking"
 OPTIONS = {"quick": {"max_paths": 20000, "unit_budget_s": 600}, "thorough": {"max_paths": 200000, "unit_budget_s": 1800}}
 ACTIONS = ["c_bind", "c_search", "c_ext", "c_unbind", "s_final", "s_entry", "s_unbind", "s_notice", "d_cs_all", "d_cs_1", "d_cs_half", "d_sc_all", "d_sc_1", "d_sc_half"]
 BOUNDS = {
-    "quick": {"schedules": "every sequence of 3 actions out of 14, plus every sequence of 5 over the 6 'whole delivery' actions, plus 12 scripted scenarios of 6..10 actions (SASL multi-step bind, search with entries and done, pipelined requests, unbind mid-flight, byte-by-byte delivery)", "contents": "result codes 0..80 symbolic, one symbolic payload octet per request"},
+    "quick": {"schedules": "every sequence of 3 actions out of 14, plus every sequence of 5 over the 6 'whole delivery' actions, plus 12 scripted scenarios of 6..10 actions (SASL multi-step bind, search with entries and done, pipelined requests, unbind mid-flight, byte-by-byte delivery); two scenarios in which a long and a short message are in the pipe and are delivered in three chunks with both cut positions solver variables (every three-chunk partition)", "contents": "result codes 0..80 symbolic, one symbolic payload octet per request"},
     "thorough": {"schedules": "every sequence of 4 actions out of 14; every sequence of 7 over the 6 whole-delivery actions; scripted scenarios"},
 }
 OUTSIDE = ["schedules longer than the bounds that are not scripted", "the one-step joint induction sketched in DESIGN.md was not built: the claim is the BMC bound"]
@@ -50,6 +50,8 @@ SCRIPTS = {
     "rich_entries": ["c_search", "d_cs_all", "s_entry_rich", "s_ref", "d_sc_half", "d_sc_all", "s_final_rich", "d_sc_all"],
     "rich_bind": ["c_bind_rich", "d_cs_all", "s_final_rich", "d_sc_all"],
     "rich_ext": ["c_ext", "d_cs_all", "s_final_rich", "d_sc_half", "d_sc_all"],
+    "cut3_long_short": ["c_search", "c_ext", "d_cs_cut", "d_cs_cut", "d_cs_all", "s_final", "s_final", "d_sc_all"],
+    "cut3_entry_final": ["c_search", "d_cs_all", "s_entry_rich", "s_final", "d_sc_cut", "d_sc_cut", "d_sc_all", "c_ext", "d_cs_all"],
     "notice_alone": ["c_ext", "d_cs_all", "s_notice", "d_sc_all"],
     "notice_after_response": ["c_search", "c_ext", "d_cs_all", "s_final", "s_notice", "d_sc_all"],
     "notice_split": ["c_search", "c_ext", "d_cs_all", "s_final", "d_sc_all", "s_notice", "d_sc_half", "d_sc_all"],
@@ -78,6 +80,10 @@ def units(tier):
             continue
         us.append({"name": "whole_" + "+".join(seq), "shape": {"acts": list(seq)}})
     for n, seq in SCRIPTS.items():
+        if n.startswith("cut3"):
+            for p in range(8):
+                us.append({"name": f"script_{n}_m{p}", "shape": {"acts": seq, "cutmod": [8, p]}})
+            continue
         us.append({"name": "script_" + n, "shape": {"acts": seq}})
     return us
 
@@ -149,6 +155,8 @@ def body(ctx, shape):
         for k, v in fields.items():
             ctx.require(ctx.eq(getattr(m, k), v), "sent-message-differs-from-the-call-arguments:" + k)
 
+    ncut = [0]
+
     def deliver(d, how):
         src, dst = (c, s) if d == "cs" else (s, c)
         if dst.state.name == "CLOSED":
@@ -158,8 +166,16 @@ def body(ctx, shape):
             return
         buf = pipe[d]
         n = len(buf)
-        k = n if how == "all" else (1 if how == "1" else n // 2)
-        k = min(k, n)
+        if how == "cut":
+            # any number of octets (solver variable): with two of these followed by "all" every
+            # three-chunk partition of what is in the pipe is covered
+            ncut[0] += 1
+            k = ctx.int(f"cut{ncut[0]}", 0, n)
+            if ncut[0] == 1 and shape.get("cutmod"):
+                ctx.assume(k % shape["cutmod"][0] == shape["cutmod"][1])  # work split over units
+        else:
+            k = n if how == "all" else (1 if how == "1" else n // 2)
+            k = min(k, n)
         chunk, pipe[d] = buf[:k], buf[k:]
         try:
             got = dst.receive(chunk)
